@@ -31,13 +31,20 @@ RULE = ('histories (8–45 ops) over 1–3 real streams (single- and multi-phase
 ASSUMPTIONS = [
     'molar volumes 1000·V_i(phase,T,P) are parameters: evaluated freshly from the chemical objects by the adapter and '
     'passed on the protocol line (the ideal mixing rule F_vol = Σ mol_i·V_i is what thermosteam\'s default mixture does)',
-    'molar contents after copy_like / phases changes / property-package reset are parameters (R): their content '
-    'semantics belongs to C01/C12/C13; the structural effect (fresh rows, data, _data_cache, phases) is modelled',
-    'pint factors and MW are data dumped at run time; the driver checks nonzero factors, MW>0 and '
-    'factor(u→u\') = f(u\')/f(u) (hypothesis monitors)',
+    'molar contents: computed by the model for scale, empty, phase = , phases = (column sums / re-filing) and all writes; '
+    'TOLD to the model (parameter R) after copy_like, _reset_thermo, mix_from and reactions, whose content semantics belongs to '
+    'C01/C05/C12/C13 — for those the adapter checks on the real objects that per-chemical totals are conserved / copied / '
+    'summed (signature contents:<op>), and the structural effect (fresh rows, data, _data_cache, phases) is modelled; '
+    'stream.mol/.mass/.vol, get_flow(units) with the default key and tuple keys, set_flow(array) are read and compared; ',
+    'pint factors, pint dimensionality vectors and MW are data dumped at run time; the model classifies a unit by comparing '
+    'its dimensionality with those of kmol/hr, kg/hr, m^3/hr (as _get_flow_name_and_factor does); the driver checks nonzero '
+    'factors, MW>0, factor(u→u\') = f(u\')/f(u) and that the molar volumes on the lines are a function of '
+    '(chemicals, phase, T, P) (hypothesis monitors for factor_consistent and VLine/RunOk)',
     'ThermalCondition.in_equilibrium (|ΔT|,|ΔP| < 1e-12) is modelled as equality',
     'the model mirrors /repo with fixes C11-1..4 and the C12/C13 copy_like / unlink / phases-setter repairs applied',
     'arithmetic: model exact (Rat), implementation binary64; compared with rtol 1e-9 / atol 1e-12',
+    'process-global state: unit memos are cleared at the start of every case; the cached Chemical objects (and their '
+    'T-dependent property objects) are shared by all cases of a worker',
     'not generated: re-classing / re-linking a phase view itself (setphase(s), link_with as receiver, copy_like, unlink, '
     '_reset_thermo, proxies of a view: model answers Precondition), _reset_thermo on a stream that has a proxy, '
     'attachment of the phase views of a stream whose indexer another stream object holds (fixes_proposed/C11-6), '
@@ -101,7 +108,7 @@ def setup():
         dim = next((k for k, v in dims.items() if v == d), 'other')
         UNIT_DIM[u] = dim
         UNIT_FACTOR[u] = float(ureg.convert(1., BASE[dim], u)) if dim != 'other' else 0.0
-        toks.append(f'{u}={dim}={frac(UNIT_FACTOR[u])}')
+        toks.append(f'{u}={dimvec(d)}={frac(UNIT_FACTOR[u])}')
     CFG.append(('cfg-units ' + ' '.join(toks), 'ok'))
     toks = []
     for u in FLOW_UNITS:
@@ -110,6 +117,18 @@ def setup():
                 CONV[u, v] = float(ureg.convert(1., u, v))
                 toks.append(f'{u}={v}={frac(CONV[u, v])}')
     CFG.append(('cfg-conv ' + ' '.join(toks), 'ok'))
+
+
+BASIS = ['[length]', '[mass]', '[time]', '[substance]', '[temperature]', '[current]', '[luminosity]']
+
+
+def dimvec(d):
+    """pint's dimensionality as exponents over BASIS plus one slot collecting every other base dimension: the model
+    compares it with the dimensionalities of kmol/hr, kg/hr and m^3/hr itself (as _get_flow_name_and_factor does)"""
+    d = dict(d)
+    v = [int(round(float(d.pop(b, 0)))) for b in BASIS]
+    v.append(int(round(sum(abs(float(x)) for x in d.values()))))
+    return ','.join(str(x) for x in v)
 
 
 def budget(tier):
@@ -301,6 +320,37 @@ def run_ops(ops):
         elif mol_rows(s) != before:
             fail('dimension_guard:view-units', f'stream {sid}: {what} with units {u!r} was rejected but changed the flows')
 
+    def totals_by_cas(s):
+        d = {}
+        for r in mol_rows(s):
+            for x, cas in zip(r, s.chemicals.CASs): d[cas] = d.get(cas, 0.0) + x
+        return {k: v for k, v in d.items() if v}
+
+    def row_dicts(x):
+        d = x._imol.data
+        return [id(r.dct) for r in d.rows] if hasattr(d, 'rows') else [id(d.dct)]
+
+    def mix_expect(s, ins):
+        """per-chemical totals of the inlets (None when an inlet shares row objects with the receiver)"""
+        mine = set(row_dicts(s))
+        if any(mine & set(row_dicts(i)) for i in ins): return None
+        d = {}
+        for i in ins:
+            for k, v in totals_by_cas(i).items(): d[k] = d.get(k, 0.0) + v
+        return {k: v for k, v in d.items() if v}
+
+    def conserve(sid, s, opname, expect, rowwise=False):
+        """contents after an operation whose numbers the model is TOLD (R) or computes: the property says the stream's
+        material is untouched / copied / scaled by that operation, so check it on the real object"""
+        if rowwise:
+            got = mol_rows(s)
+            ok = rows_close(got, expect)
+        else:
+            got = totals_by_cas(s)
+            ok = set(got) == set(expect) and all(close(got[k], expect[k], RTOL, ATOL) for k in got)
+        if not ok:
+            fail(f'contents:{opname}', f'stream {sid}: after `{opname}` the molar contents are {got}, expected {expect}')
+
     def key_of(s, phsel, i):
         """(model ph token, model index, real key)"""
         n = len(s.chemicals)
@@ -385,11 +435,14 @@ def run_ops(ops):
             emit(f'{op} {sid} {frac(x)}', 'ok')
         elif op == 'setphase':
             sid = S(t[1]); s = w.streams[sid]; c = t[2]
+            tb = totals_by_cas(s)
             s.phase = c
             mark_change(sid, op)
             emit(f'setphase {sid} {c} {mat(mol_rows(s))}', shape_ans(s))
+            conserve(sid, s, op, tb)
         elif op == 'setphases':
             sid = S(t[1]); s = w.streams[sid]; ps = ''.join(sorted(set(t[2])))
+            tb = totals_by_cas(s)
             try:
                 s.phases = tuple(ps)
             except tmo.exceptions.UndefinedPhase:
@@ -398,6 +451,7 @@ def run_ops(ops):
                 return
             mark_change(sid, op)
             emit(f'setphases {sid} {ps} {mat(mol_rows(s))}', shape_ans(s))
+            conserve(sid, s, op, tb)
         elif op == 'link':
             sid, oid = S(t[1]), S(t[2]); s, o = w.streams[sid], w.streams[oid]
             fl, ph, tp = t[3] == '1', t[4] == '1', t[5] == '1'
@@ -426,6 +480,7 @@ def run_ops(ops):
                     for r in mol_rows(o):
                         if any(x and cas not in have for x, cas in zip(r, o.chemicals.CASs)): return
             s.copy_like(o)
+            conserve(sid, s, 'copylike', totals_by_cas(o))
             mark_change(sid, 'copylike')
             emit(f'copylike {sid} {oid} {mat(mol_rows(s))}', shape_ans(s))
         elif op == 'thermo':
@@ -435,25 +490,37 @@ def run_ops(ops):
             for r in mol_rows(s):
                 if any(x and cas not in have for x, cas in zip(r, s.chemicals.CASs)): return
             if new is not s.thermo and ix_shared(s): return     # a proxy would keep its old package
+            tb = totals_by_cas(s)
             s._reset_thermo(new)
+            conserve(sid, s, 'thermo', tb)
             mark_change(sid, 'thermo')
             emit(f'thermo {sid} {k} {mat(mol_rows(s))}', shape_ans(s))
         elif op in ('scale', 'empty', 'react'):
             sid = S(t[1]); s = w.streams[sid]
-            if op == 'scale': s.scale(float(t[2]))
-            elif op == 'empty': s.empty()
-            else:
-                if s.thermo is THERMOS[2]: return          # the reaction's chemicals are not in this package
-                if is_multi(s) and tuple(s.phases) != ('g', 'l'): return
-                rxn = RXNS[('m' if is_multi(s) else '1') + ('wt' if t[2] == 'wt' else 'mol')]
-                rxn(s)
-                if np.shape(s.imol.data)[-1] != len(s.chemicals.IDs):
-                    emit(sync_line(sid, s), shape_ans(s))
-                    fail('reset_chemicals:container-not-rebound',
-                         f'stream {sid}: after a reaction defined on another property package imol.data has '
-                         f'{np.shape(s.imol.data)[-1]} columns for {len(s.chemicals.IDs)} chemicals '
-                         f'(MaterialIndexer.reset_chemicals(chemicals, container) never rebinds data / _data_cache)')
-                    raise Stop()
+            before = mol_rows(s)
+            if op == 'scale':
+                q = float(t[2]); s.scale(q)
+                mark_change(sid, op)
+                emit(f'scale {sid} {frac(q)}', shape_ans(s))
+                conserve(sid, s, op, [[x * q for x in r] for r in before], rowwise=True)
+                return
+            if op == 'empty':
+                s.empty()
+                mark_change(sid, op)
+                emit(f'empty {sid}', shape_ans(s))
+                conserve(sid, s, op, [[0.0 for _ in r] for r in before], rowwise=True)
+                return
+            if s.thermo is THERMOS[2]: return          # the reaction's chemicals are not in this package
+            if is_multi(s) and tuple(s.phases) != ('g', 'l'): return
+            rxn = RXNS[('m' if is_multi(s) else '1') + ('wt' if t[2] == 'wt' else 'mol')]
+            rxn(s)
+            if np.shape(s.imol.data)[-1] != len(s.chemicals.IDs):
+                emit(sync_line(sid, s), shape_ans(s))
+                fail('reset_chemicals:container-not-rebound',
+                     f'stream {sid}: after a reaction defined on another property package imol.data has '
+                     f'{np.shape(s.imol.data)[-1]} columns for {len(s.chemicals.IDs)} chemicals '
+                     f'(MaterialIndexer.reset_chemicals(chemicals, container) never rebinds data / _data_cache)')
+                raise Stop()
             mark_change(sid, op)
             emit(sync_line(sid, s), shape_ans(s))
         elif op == 'mix':
@@ -465,13 +532,17 @@ def run_ops(ops):
             if is_multi(s):
                 others = ''.join(sorted({ph for i in ins for ph in phases_of(i)}))
                 if any(ph not in s._imol._phase_indexer for ph in others) and w.shared_data(s): return
+                exp = mix_expect(s, ins)
                 s.mix_from(ins, energy_balance=False)
                 mark_change(sid, 'mix')
                 emit(f'mixinto {sid} {others} {frac(s.P)} {mat(mol_rows(s))}', shape_ans(s))
+                if exp is not None: conserve(sid, s, 'mix', exp)
             else:
+                exp = mix_expect(s, ins)
                 s.mix_from(ins, energy_balance=False)
                 mark_change(sid, 'mix')
                 emit(sync_line(sid, s), shape_ans(s))
+                if exp is not None: conserve(sid, s, 'mix', exp)
         elif op == 'rdmol':
             sid = S(t[1]); s = w.streams[sid]
             emit(f'rdmol {sid}', f'm - {mat(mol_rows(s), fbits)}')
@@ -731,9 +802,94 @@ def run_ops(ops):
                 if err is None:
                     check_total_set(sid, s, dim, x, UNIT_FACTOR[u], z0, F0, f'set_total_flow({u!r})')
                     w.last_set = ('total', sid, None, None, u, x)
+        elif op == 'rdagg':
+            # the aggregate accessors stream.mol / stream.mass / stream.vol (per chemical, summed over the phases)
+            sid = S(t[1]); s = w.streams[sid]; dim = t[2]
+            V = vtok(s, dim == 'vol')
+            pend(sid, dim, f'rdagg {sid} {dim} {V}')
+            val = getattr(s, dim)
+            row = [float(x) for x in np.asarray(val.to_array() if hasattr(val, 'to_array') else val, dtype=float).ravel()]
+            uses_view = dim == 'vol' or (dim == 'mass' and not is_multi(s))
+            vt = w.vnum(indexer(s, dim)) if uses_view else '-'
+            emit(f'rdagg {sid} {dim} {V}', f'm {vt} {mat([row], fbits)}')
+            mol = mol_rows(s)
+            n = len(s.chemicals.IDs)
+            col = [sum(r[i] for r in mol) for i in range(n)]
+            if dim == 'mol': exp = col
+            elif dim == 'mass': exp = [c * float(mw) for c, mw in zip(col, s.chemicals.MW)]
+            else:
+                Vm = fresh_V(s)
+                exp = [sum(r[i] * vr[i] for r, vr in zip(mol, Vm)) for i in range(n)]
+            if not rows_close([row], [exp]):
+                fail(f'stream.{dim}≠per-chemical-sum', f'stream {sid} ({"multi" if is_multi(s) else "single"}-phase): '
+                     f'stream.{dim} = {row} but the per-chemical sums over the phases of '
+                     f'{"mol" if dim == "mol" else "mol×MW" if dim == "mass" else "mol×V(phase,T,P)"} are {exp}')
+            if uses_view: note_view_read()
+        elif op == 'getflowall':
+            # get_flow(units) with the default key: every chemical (multi-phase: summed over the phases)
+            sid = S(t[1]); s = w.streams[sid]; u = t[2]
+            dim = UNIT_DIM[u]
+            V = vtok(s, dim == 'vol')
+            pend(sid, dim, f'getflowall {sid} {u} {V}')
+            try:
+                val = s.get_flow(u); err = None
+            except tmo.exceptions.DimensionError:
+                err = 'err DimensionError'
+            if dim == 'other':
+                if err is None: fail('dimension_guard', f'get_flow({u!r}) was accepted although {u!r} is not a flow unit')
+                emit(f'getflowall {sid} {u} {V}', err or 'accepted')
+            else:
+                row = [float(x) for x in np.asarray(val.to_array() if hasattr(val, 'to_array') else val, dtype=float).ravel()]
+                vt = '-' if dim == 'mol' else w.vnum(indexer(s, dim))
+                emit(f'getflowall {sid} {u} {V}', f'm {vt} {mat([row], fbits)}')
+                mol = mol_rows(s); n = len(s.chemicals.IDs)
+                if dim == 'mol': exp = [sum(r[i] for r in mol) for i in range(n)]
+                elif dim == 'mass': exp = [sum(r[i] for r in mol) * float(s.chemicals.MW[i]) for i in range(n)]
+                else:
+                    Vm = fresh_V(s); exp = [sum(r[i] * vr[i] for r, vr in zip(mol, Vm)) for i in range(n)]
+                exp = [x * UNIT_FACTOR[u] for x in exp]
+                if not rows_close([row], [exp]):
+                    fail(f'get_flow(all):{dim}', f'stream {sid}: get_flow({u!r}) = {row}, expected {exp}')
+                if dim != 'mol': note_view_read()
+        elif op in ('getflowarr', 'setflowarr'):
+            # get_flow(units, (ID, ID, …)) / set_flow([x, …], units, (ID, …)): one call on the real object; the model sees the
+            # equivalent element-wise calls
+            sid = S(t[1]); s = w.streams[sid]; u = t[2]
+            dim = UNIT_DIM[u]
+            if dim == 'other': return
+            n = len(s.chemicals.IDs)
+            idx = sorted({int(x) % n for x in t[4].split(',')})
+            IDs = tuple(s.chemicals.IDs[i] for i in idx)
+            if is_multi(s):
+                ph = s.phases[int(t[3]) % len(s.phases)]; key = (ph, IDs)
+            else:
+                ph = '-'; key = IDs
+            V = vtok(s, dim == 'vol')
+            if op == 'getflowarr':
+                pend(sid, dim, f'getflow {sid} {u} {ph} {idx[0]} {V}')
+                vals = [float(x) for x in np.asarray(s.get_flow(u, key), dtype=float).ravel()]
+                vt = '-' if dim == 'mol' else w.vnum(indexer(s, dim))
+                for i, x in zip(idx, vals):
+                    emit(f'getflow {sid} {u} {ph} {i} {V}', f'x {vt} {fbits(x)}')
+                    check_elem(sid, s, dim, ph, i, x, UNIT_FACTOR[u])
+                if len(vals) != len(idx):
+                    fail(f'get_flow(array):{dim}', f'stream {sid}: get_flow({u!r}, {key}) returned {len(vals)} values')
+            else:
+                xs = [float(x) for x in t[5].split(',')]
+                xs = (xs * len(idx))[:len(idx)]
+                pend(sid, dim, f'setflow {sid} {u} {ph} {idx[0]} {frac(xs[0])} {V}')
+                s.set_flow(xs, u, key)
+                vt = '-' if dim == 'mol' else w.vnum(indexer(s, dim))
+                for i, x in zip(idx, xs):
+                    emit(f'setflow {sid} {u} {ph} {i} {frac(x)} {V}', f'w {vt}')
+                w.last_set = None
+                back = [float(v) for v in np.asarray(s.get_flow(u, key), dtype=float).ravel()]
+                if not rows_close([back], [xs]):
+                    fail(f'roundtrip:set_flow(array):{dim}', f'stream {sid}: set_flow({xs}, {u!r}, {key}) reads back {back}')
         elif op == 'obs':
             sid = S(t[1])
-            for sub in (f'rdmol {sid}', f'rdmass {sid}', f'rdvol {sid}', f'rdF {sid} mol', f'rdF {sid} mass', f'rdF {sid} vol'):
+            for sub in (f'rdmol {sid}', f'rdmass {sid}', f'rdvol {sid}', f'rdF {sid} mol', f'rdF {sid} mass', f'rdF {sid} vol',
+                        f'rdagg {sid} mol', f'rdagg {sid} mass', f'rdagg {sid} vol'):
                 do(sub)
             s = w.streams[sid]
             Fm, Fv = float(s.F_mass), float(s.F_vol)
@@ -813,6 +969,8 @@ def run_impl(case: Case) -> ImplResult:
     except Stop:
         raise
     tags = tags + sorted({'ans:' + (o if o.startswith(('err', 'raised')) else o.split(' ')[0]) for o in outs})
+    if case.meta.get('kind'): tags.append('kind:' + case.meta['kind'])
+    if case.meta.get('grid'): tags.append('grid:' + case.meta['grid'])
     return ImplResult(model_in=model_in, outs=outs, failures=failures, tags=tags,
                       nontrivial=(tuple(case.ops) if nontrivial else None))
 
@@ -849,6 +1007,21 @@ def disagree_signature(case, res, first):
 # --------------------------------------------------------------------------
 TS = [280.0, 298.15, 320.0, 350.0, 375.5]
 PS = [101325.0, 50000.0, 202650.0]
+
+
+def pickT(rng):
+    """base temperatures and neighbours a few kelvin, a fraction of a kelvin and a millikelvin away"""
+    T = rng.choice(TS)
+    r = rng.random()
+    if r < 0.45: return T
+    return round(T + rng.choice([-1, 1]) * rng.choice([0.001, 0.02, 0.25, 1.0, 3.0, 7.5]), 6)
+
+
+def pickP(rng):
+    P = rng.choice(PS)
+    r = rng.random()
+    if r < 0.45: return P
+    return round(P + rng.choice([-1, 1]) * rng.choice([0.5, 20.0, 500.0, 2500.0, 10000.0]), 3)
 FLOWS = [0, 0, 0.5, 1, 2, 3.25, 7.5, 10]
 XS = [0, 1.5, 20, 100.25, 0.125, 3, 7]
 MULTIPHASES = ['gl', 'gl', 'gls', 'Lgl', 'ls', 'Ll']
@@ -863,9 +1036,9 @@ def gen_row(rng, n=5):
 def gen_new(rng, th=None):
     th = rng.choice([0, 0, 0, 1]) if th is None else th
     if rng.random() < 0.55:
-        return f'new1 {th} {rng.choice("lgls")} {rng.choice(TS)} {rng.choice(PS)} {gen_row(rng)}'
+        return f'new1 {th} {rng.choice("lgls")} {pickT(rng)} {pickP(rng)} {gen_row(rng)}'
     phs = rng.choice(MULTIPHASES)
-    return f'newm {th} {phs} {rng.choice(TS)} {rng.choice(PS)} ' + '|'.join(gen_row(rng) for _ in phs)
+    return f'newm {th} {phs} {pickT(rng)} {pickP(rng)} ' + '|'.join(gen_row(rng) for _ in phs)
 
 
 def gen_read(rng, o):
@@ -876,7 +1049,10 @@ def gen_read(rng, o):
     if r < 0.64: return f'rdF {o} {rng.choice(["mol", "mass", "vol", "vol"])}'
     if r < 0.76: return f'get {o} {rng.choice(["mol", "mass", "vol"])} {rng.randrange(3)} {rng.randrange(5)}'
     if r < 0.84: return f'getflow {o} {rng.choice(FLOW_UNITS)} {rng.randrange(3)} {rng.randrange(5)}'
-    if r < 0.90: return gen_view_units(rng, o, False)
+    if r < 0.87: return gen_view_units(rng, o, False)
+    if r < 0.90:
+        return rng.choice([f'getflowall {o} {rng.choice(FLOW_UNITS)}', f'rdagg {o} {rng.choice(ALL_DIMS)}',
+                           f'getflowarr {o} {rng.choice(FLOW_UNITS)} {rng.randrange(3)} {rng.randrange(5)},{rng.randrange(5)},{rng.randrange(5)}'])
     return f'gettotal {o} {rng.choice(FLOW_UNITS)}'
 
 
@@ -915,6 +1091,11 @@ def gen_write(rng, o):
     if r < 0.22:
         w1 = gen_view_units(rng, o, True)
         return [w1, gen_view_units(rng, o, False)]
+    if r < 0.28:
+        u = rng.choice(FLOW_UNITS); ph = rng.randrange(3)
+        idx = f'{rng.randrange(5)},{rng.randrange(5)},{rng.randrange(5)}'
+        return [f'setflowarr {o} {u} {ph} {idx} {rng.choice(XS)},{rng.choice(XS)},{rng.choice(XS)}',
+                f'getflowarr {o} {u} {ph} {idx}', f'getflowall {o} {rng.choice(FLOW_UNITS)}', f'rdagg {o} {rng.choice(ALL_DIMS)}']
     if r < 0.30: return [f'put {o} {rng.choice(["mol", "mass", "vol"])} {rng.randrange(3)} {rng.randrange(5)} {rng.choice(XS)}']
     if r < 0.65:
         ph, i, u = rng.randrange(3), rng.randrange(5), rng.choice(FLOW_UNITS)
@@ -932,8 +1113,8 @@ def gen_write(rng, o):
 def gen_change(rng, o, n):
     r = rng.random()
     other = rng.randrange(n)
-    if r < 0.11: return f'setT {o} {rng.choice(TS)}'
-    if r < 0.16: return f'setP {o} {rng.choice(PS)}'
+    if r < 0.13: return f'setT {o} {pickT(rng)}'
+    if r < 0.19: return f'setP {o} {pickP(rng)}'
     if r < 0.30: return f'setphase {o} {rng.choice("lgls")}'
     if r < 0.40: return f'setphases {o} {rng.choice(MULTIPHASES + ["l", "g", "gl"])}'
     if r < 0.57: return f'link {o} {other} {rng.randrange(2)} {rng.randrange(2)} {rng.randrange(2)}' \
@@ -1041,13 +1222,36 @@ def grid():
     return out
 
 
+def gen_negative_case(rng):
+    """negative flows through the mass / volumetric dictionary views (no total setters: a cancelling total makes the
+    scaling ill-conditioned, which is not what is being looked at)"""
+    NEG = [-7.3, -2.1, -0.45, 0, 1.15, 3.3]     # no subset cancels exactly (F_vol of a zero net molar flow: fixes_proposed/C11-7)
+    row = lambda: ','.join(str(rng.choice(NEG)) for _ in range(5))
+    if rng.random() < 0.5:
+        ops = [f'new1 0 {rng.choice("lg")} {pickT(rng)} {pickP(rng)} {row()}']
+    else:
+        ops = [f'newm 0 gl {pickT(rng)} {pickP(rng)} {row()}|{row()}']
+    ops.append(f'new1 0 l {pickT(rng)} {pickP(rng)} {row()}')
+    for _ in range(rng.randrange(4, 12)):
+        o = rng.randrange(2); r = rng.random()
+        if r < 0.3: ops += [f'put {o} {rng.choice(ALL_DIMS)} {rng.randrange(3)} {rng.randrange(5)} {rng.choice(NEG)}', f'obs {o}']
+        elif r < 0.55:
+            u = rng.choice(FLOW_UNITS); ph, i = rng.randrange(3), rng.randrange(5)
+            ops += [f'setflow {o} {u} {ph} {i} {rng.choice(NEG)}', f'getflow {o} {u} {ph} {i}', f'getflow {o} {rng.choice(FLOW_UNITS)} {ph} {i}']
+        elif r < 0.7: ops += [gen_assign(rng, o, 2), f'obs {o}']
+        elif r < 0.8: ops.append(f'setT {o} {pickT(rng)}')
+        elif r < 0.9: ops.append(f'getflowall {o} {rng.choice(FLOW_UNITS)}')
+        else: ops.append(f'setphase {o} {rng.choice("lg")}')
+    return Case(ops + ['obs 0', 'obs 1'], {'kind': 'negative'})
+
+
 def generate(rng, tier, index, nworkers):
     g = grid()
     for k, c in enumerate(g):
         if k % nworkers == index: yield c
     n = max(1, (budget(tier)['cases'] - len(g)) // nworkers)
     for _ in range(n):
-        yield gen_case(rng, rng.randrange(8, 46))
+        yield gen_negative_case(rng) if rng.random() < 0.04 else gen_case(rng, rng.randrange(8, 46))
 
 
 def corpus():
